@@ -489,9 +489,21 @@ func (h *c10H) exec(line string) (res string, rc *c10Recv) {
 			by = Actor(398)
 		}
 		msg := irotypes.MsgCreatePlan{Owner: by.String(), RollappId: ibcRollappID(ridx(f[1])), AllocatedAmount: math.NewIntFromBigInt(bigOf(m["alloc"])),
-			BondingCurve: irotypes.DefaultBondingCurve(), TradingEnabled: true, IroPlanDuration: time.Duration(atou(m["dur"])) * time.Second,
+			BondingCurve: irotypes.DefaultBondingCurve(), TradingEnabled: m["te"] != "0", IroPlanDuration: time.Duration(atou(m["dur"])) * time.Second,
 			IncentivePlanParams: irotypes.DefaultIncentivePlanParams(), LiquidityPart: irotypes.DefaultParams().MinLiquidityPart, LiquidityDenom: ibcDenom,
 			VestingDuration: irotypes.DefaultParams().MinVestingDuration, VestingStartTimeAfterSettlement: 0}
+		return c10Res(h.deliver(&msg)), nil
+	case "enable":
+		// MsgEnableTrading of the plan of rollapp r<i>; a rollapp without a plan is addressed through a plan id that does not exist
+		by := h.e.owner
+		if m["by"] != "owner" {
+			by = Actor(398)
+		}
+		planID := "999999"
+		if p, ok := app.IROKeeper.GetPlanByRollapp(h.e.f.Ctx, ibcRollappID(ridx(f[1]))); ok {
+			planID = strconv.FormatUint(p.Id, 10)
+		}
+		msg := irotypes.MsgEnableTrading{Owner: by.String(), PlanId: planID}
 		return c10Res(h.deliver(&msg)), nil
 	case "tick":
 		if err := h.e.f.Begin(time.Duration(atou(m["dt"])) * time.Second); err != nil {
@@ -677,6 +689,8 @@ type c10RaSnap struct {
 	PreLaunch        string
 	Plan             string
 	HasPlan          bool
+	PlanTE           bool   // plan.TradingEnabled
+	PlanStart        string // plan.StartTime in seconds after BaseTime, "-" = the zero time
 	Chan             string
 	Tph              uint64
 	Md               bool
@@ -752,10 +766,14 @@ func (h *c10H) snapshot() *c10Snap {
 		if ra.PreLaunchTime != nil {
 			r.PreLaunch = strconv.FormatInt(int64(ra.PreLaunchTime.Sub(BaseTime)/time.Second), 10)
 		}
-		r.Plan = "-"
+		r.Plan, r.PlanStart = "-", "-"
 		if p, ok := app.IROKeeper.GetPlanByRollapp(ctx, ra.RollappId); ok {
 			r.HasPlan = true
 			r.Plan = fmt.Sprintf("%s:%s", p.TotalAllocation.Amount, b2s(p.IsSettled()))
+			r.PlanTE = p.TradingEnabled
+			if !p.StartTime.IsZero() {
+				r.PlanStart = strconv.FormatInt(int64(p.StartTime.Sub(BaseTime)/time.Second), 10)
+			}
 		}
 		r.Chan = "-"
 		if ra.ChannelId != "" {
@@ -855,7 +873,11 @@ func (s *c10Snap) render(res string) string {
 			}
 			bal = strings.Join(xs, ",")
 		}
-		fmt.Fprintf(&sb, " | r%d l=%s gi=%s pl=%s plan=%s ch=%s tph=%d md=%s bal=%s", ri, b2s(r.Launched), r.GI, r.PreLaunch, r.Plan, r.Chan, r.Tph, b2s(r.Md), bal)
+		te := "-"
+		if r.HasPlan {
+			te = b2s(r.PlanTE)
+		}
+		fmt.Fprintf(&sb, " | r%d l=%s gi=%s pl=%s plan=%s te=%s ps=%s ch=%s tph=%d md=%s bal=%s", ri, b2s(r.Launched), r.GI, r.PreLaunch, r.Plan, te, r.PlanStart, r.Chan, r.Tph, b2s(r.Md), bal)
 	}
 	sb.WriteString(" | chans=" + s.Chans)
 	return sb.String()
@@ -955,6 +977,17 @@ func (m *c10Mon) check(op, res string, rc *c10Recv, cur *c10Snap, digestBefore, 
 		}
 	}
 	switch f[0] {
+	case "enable":
+		// trading of an IRO plan is switched on by the rollapp's owner only, and only once
+		ri := ridx(f[1])
+		if res == "ok" {
+			if !strings.Contains(op, "by=owner") {
+				m.violate("C10/enable_trading/accepted-from-non-owner", op)
+			}
+			if ri >= len(prev.Ras) || !prev.Ras[ri].HasPlan || prev.Ras[ri].PlanTE {
+				m.violate("C10/enable_trading/accepted-without-disabled-plan", op)
+			}
+		}
 	case "send":
 		c, ok := h.chanByTok(f[1])
 		if !ok || c.kind != 'c' {
@@ -1052,6 +1085,65 @@ type c10Gen struct {
 	r    *Run
 	reg  map[int]c10GI // what the generator last registered successfully (as a hint only)
 	plan map[int]bool
+	// deferred-trading flow: rollapps for which a plan with trading disabled was requested, and the
+	// follow-up ops (op kind + rollapp) queued after such a request
+	deferred map[int]bool
+	script   []string
+}
+
+// enableLine: MsgEnableTrading for the plan of rollapp ri, by its owner or by somebody else
+func (c *c10Gen) enableLine(ri int, r c10RaSnap) string {
+	by := "owner"
+	if c.g.Chance(25) {
+		by = "other"
+		c.r.Hit("enable/not-owner")
+	}
+	switch {
+	case !r.HasPlan:
+		c.r.Hit("enable/no-plan")
+	case r.PlanTE:
+		// (a settled plan always has trading enabled here: settlement needs a launched rollapp, i.e. the
+		// pre-launch time has passed, which is 10 years away while trading is disabled - the fixture's
+		// light clients cannot be created that late, so "settled but never enabled" is model-only)
+		c.r.Hit("enable/already-enabled")
+	case by == "owner":
+		c.r.Hit("enable/disabled-plan-by-owner")
+	}
+	return fmt.Sprintf("enable r%d by=%s", ri, by)
+}
+
+// ownerSetgi: the owner's genesis-info update of a rollapp (fresh valid info, or the registered one with
+// another checksum / the IRO allocation re-routed to another account)
+func (c *c10Gen) ownerSetgi(ri int, r c10RaSnap) string {
+	gi := c.validGI(ri)
+	if r.Exists {
+		switch c.g.Intn(3) {
+		case 0:
+			gi = c.fromReal(r.GIraw)
+			gi.Ck = gi.Ck%3 + 1
+		case 1:
+			gi = c.fromReal(r.GIraw)
+			for i := range gi.Accs {
+				if gi.Accs[i].Addr == c10IroTok && gi.Accs[i].Amt.Cmp(big.NewInt(2)) > 0 {
+					half := new(big.Int).Rsh(gi.Accs[i].Amt, 1)
+					gi.Accs[i].Amt = new(big.Int).Sub(gi.Accs[i].Amt, half)
+					gi.Accs = append(gi.Accs, c10Acc{9, half})
+					c.r.Hit("setgi/iro-allocation-rerouted")
+					break
+				}
+			}
+		}
+	}
+	if r.HasPlan {
+		c.r.Hit("setgi/after-plan")
+		switch {
+		case !r.PlanTE:
+			c.r.Hit("setgi/after-plan-trading-disabled")
+		case c.deferred[ri]:
+			c.r.Hit("setgi/after-enable")
+		}
+	}
+	return fmt.Sprintf("setgi r%d by=owner %s", ri, gi.line())
 }
 
 func (c *c10Gen) validGI(ri int) c10GI {
@@ -1385,6 +1477,35 @@ func (c *c10Gen) fromReal(gi rollapptypes.GenesisInfo) c10GI {
 func (c *c10Gen) next(s *c10Snap, step int) string {
 	g := c.g
 	h := c.h
+	// queued follow-ups of a trading-disabled plan request (interleaved with ordinary ops)
+	if len(c.script) > 0 && g.Chance(65) {
+		f := strings.Fields(c.script[0])
+		c.script = c.script[1:]
+		qi := ridx(f[1])
+		var qr c10RaSnap
+		if qi < len(s.Ras) {
+			qr = s.Ras[qi]
+		}
+		if qr.Exists && !qr.Launched {
+			switch f[0] {
+			case "setgi":
+				return c.ownerSetgi(qi, qr)
+			case "enable":
+				return c.enableLine(qi, qr)
+			case "seq":
+				if qr.PreLaunch != "-" && atoi(qr.PreLaunch) > s.Now {
+					c.r.Hit("seq/before-pre-launch-time")
+					if qr.HasPlan && !qr.PlanTE {
+						c.r.Hit("seq/before-pre-launch-time-trading-disabled")
+					}
+				}
+				return "seq " + f[1]
+			case "tick":
+				c.r.Hit("tick")
+				return "tick dt=" + f[2]
+			}
+		}
+	}
 	ri := g.Intn(h.nra)
 	var r c10RaSnap
 	if ri < len(s.Ras) {
@@ -1438,9 +1559,19 @@ func (c *c10Gen) next(s *c10Snap, step int) string {
 		}
 		if r.HasPlan {
 			c.r.Hit("setgi/after-plan")
+			switch {
+			case !r.PlanTE:
+				c.r.Hit("setgi/after-plan-trading-disabled")
+			case c.deferred[ri]:
+				c.r.Hit("setgi/after-enable")
+			}
 		}
 		return "setgi " + rt + " by=" + by + " " + gi.line()
 	case !r.Launched && k < 45:
+		// MsgEnableTrading: mostly where it can succeed (plan with trading disabled), sometimes where it cannot
+		if (r.HasPlan && !r.PlanTE && g.Chance(60)) || (r.HasPlan && r.PlanTE && g.Chance(20)) || (!r.HasPlan && g.Chance(8)) {
+			return c.enableLine(ri, r)
+		}
 		reg := c.fromReal(r.GIraw)
 		alloc := big.NewInt(0)
 		for _, a := range reg.Accs {
@@ -1461,13 +1592,31 @@ func (c *c10Gen) next(s *c10Snap, step int) string {
 			alloc = new(big.Int).Exp(big.NewInt(10), big.NewInt(20), nil)
 			c.r.Hit("plan/no-iro-account")
 		}
-		return fmt.Sprintf("plan %s by=%s alloc=%s dur=%d", rt, by, alloc, 600*(1+g.Intn(3)))
+		dur := 600 * (1 + g.Intn(3))
+		te := 1
+		if g.Chance(35) {
+			// deferred trading: MsgCreatePlan.trading_enabled = false, MsgEnableTrading later
+			te = 0
+			c.r.Hit("plan/trading-disabled")
+			c.deferred[ri] = true
+			if g.Chance(60) {
+				// the owner tries to change the genesis info and to launch before and after enabling trading
+				c.script = append(c.script, "setgi "+rt, "seq "+rt, "enable "+rt, "setgi "+rt, "seq "+rt,
+					fmt.Sprintf("tick %s %d", rt, dur), "seq "+rt)
+			}
+		} else {
+			c.r.Hit("plan/trading-enabled")
+		}
+		return fmt.Sprintf("plan %s by=%s alloc=%s dur=%d te=%d", rt, by, alloc, dur, te)
 	case !r.Launched && k < 60:
 		c.r.Hit("tick")
 		return fmt.Sprintf("tick dt=%d", 300*(1+g.Intn(5)))
 	case !r.Launched:
 		if r.PreLaunch != "-" && atoi(r.PreLaunch) > s.Now {
 			c.r.Hit("seq/before-pre-launch-time")
+			if r.HasPlan && !r.PlanTE {
+				c.r.Hit("seq/before-pre-launch-time-trading-disabled")
+			}
 		}
 		return "seq " + rt
 	case !linked && k < 60:
@@ -1498,6 +1647,8 @@ func (c *c10Gen) next(s *c10Snap, step int) string {
 		return "tick dt=60"
 	case k < 21:
 		return "seq " + rt
+	case k < 23:
+		return c.enableLine(ri, r) // launched: the plan (if any) has trading enabled, or was settled
 	}
 	if len(h.chans) == 0 {
 		return "link " + rt
@@ -1586,6 +1737,70 @@ func c10RunTrace(t *testing.T, r *Run, lines []string, gen func(h *c10H, s *c10S
 	r.Trace()
 }
 
+// c10Directed: fixed traces run before the random walks, so that even the smallest run contains the
+// deferred-trading flow (IRO plan created with trading disabled, MsgEnableTrading later) end to end.
+func c10Directed() [][]string {
+	const alloc = "11000000000000000000"
+	const sum = "11000000000000000010"
+	gi := func(ck int, accs string) string {
+		return fmt.Sprintf("ck=%d pf=1 nb=1 nd=11 ne=18 sup=%s accs=%s sealed=0", ck, sum, accs)
+	}
+	reg := "1:10;50:" + alloc
+	rerouted := "1:10;50:5500000000000000000;9:5500000000000000000"
+	hs := "recv c0 ph=7 kind=gb " + gi(1, reg) + " md=1/1:0,11:18/1/1 mdshape=ok tr=1/" + sum + "/1/0/1"
+	return [][]string{
+		{ // plan with trading disabled seals; the owner's updates are refused before and after MsgEnableTrading; handshake settles
+			"reset nra=2",
+			"create r0 gi=nil",
+			"setgi r0 by=owner " + gi(1, reg),
+			"tick dt=100",
+			"plan r0 by=owner alloc=" + alloc + " dur=600 te=0",
+			"setgi r0 by=owner " + gi(2, reg),
+			"setgi r0 by=owner " + gi(1, rerouted),
+			"seq r0",
+			"enable r0 by=other",
+			"enable r1 by=owner",
+			"tick dt=50",
+			"enable r0 by=owner",
+			"setgi r0 by=owner " + gi(2, reg),
+			"setgi r0 by=owner " + gi(1, rerouted),
+			"enable r0 by=owner",
+			"seq r0",
+			"tick dt=600",
+			"seq r0",
+			"link r0",
+			"send c0",
+			hs,
+			"send c0",
+			"enable r0 by=owner",
+		},
+		{ // the same plan with the flag set, in the old line format (no te= token)
+			"reset nra=2",
+			"create r0 " + gi(1, reg),
+			"plan r0 by=owner alloc=" + alloc + " dur=600",
+			"enable r0 by=owner",
+			"setgi r0 by=owner " + gi(2, reg),
+			"tick dt=600",
+			"seq r0",
+			"link r0",
+			hs,
+		},
+		{ // trading never enabled: the rollapp stays unlaunchable for 10 years
+			"reset nra=2",
+			"create r0 " + gi(1, reg),
+			"plan r0 by=owner alloc=" + alloc + " dur=600 te=0",
+			"tick dt=3000",
+			"seq r0",
+			"setgi r0 by=owner " + gi(2, reg),
+			"force r0 by=gov " + gi(2, reg),
+			"enable r0 by=owner",
+			"seq r0",
+			"tick dt=600",
+			"seq r0",
+		},
+	}
+}
+
 func TestC10(t *testing.T) {
 	r := NewRun(t, "C10")
 	defer r.Close()
@@ -1593,13 +1808,17 @@ func TestC10(t *testing.T) {
 		c10RunTrace(t, r, lines, nil, 0)
 		return
 	}
+	for _, lines := range c10Directed() {
+		r.Hit("directed/deferred-trading-trace")
+		c10RunTrace(t, r, lines, nil, 0)
+	}
 	nTraces, nOps := r.N(220, 4000), r.N(45, 60)
 	for tr := 0; tr < nTraces; tr++ {
 		g := ibcTraceRng(r.Seed, tr)
 		var gen *c10Gen
 		c10RunTrace(t, r, nil, func(h *c10H, s *c10Snap, i int) string {
 			if gen == nil {
-				gen = &c10Gen{g: g, h: h, r: r, reg: map[int]c10GI{}, plan: map[int]bool{}}
+				gen = &c10Gen{g: g, h: h, r: r, reg: map[int]c10GI{}, plan: map[int]bool{}, deferred: map[int]bool{}}
 			}
 			return gen.next(s, i)
 		}, nOps)
